@@ -2,7 +2,8 @@
 """eqprompt.py <group> <worktree> <ids...>: prompt for a sub-agent that writes behaviour-preserving rewrites (the false-alarm half of the self-test).  It sees only the property texts."""
 import sys, json
 grp, W = sys.argv[1], sys.argv[2]
-ids = sys.argv[3:]
+ids = [a for a in sys.argv[3:] if not a.startswith("--")]
+bold = "--bold" in sys.argv
 props = {}
 for l in open('/verif/properties.jsonl'):
     p = json.loads(l)
@@ -14,7 +15,7 @@ Background: a set of checkers decides properties of libevent from its source cod
 
 """ + "\n\n".join(props[i] for i in ids) + f"""
 
-Your task: write 10 to 12 small, independent, behaviour-preserving source rewrites (refactorings) of libevent in {W}, each inside a function that implements one of the properties above (read the code first; spread them over the properties and over different functions). Each rewrite must leave the observable behaviour of the library EXACTLY as it is for every input, state and schedule — not just for the tests. Good kinds of rewrite: swap the branches of an if with the condition negated; turn a goto-cleanup into an inlined cleanup or the reverse; hoist or sink a declaration; split a compound condition into nested ifs or merge nested ifs; replace `x == 0` by `!x`, `a - b > 0` only if it is exactly equivalent for the types involved; introduce a local variable for a repeated sub-expression that has no side effects and cannot change in between; turn a while loop into an equivalent for loop or do-while with a guard; reorder two adjacent statements that are independent (no data, aliasing or ordering dependence — be careful with locks, callbacks and evbuffer operations that run callbacks); replace a macro use by its expansion; change `i++` to `++i` where the value is unused; use a ternary instead of if/else for an assignment. Avoid rewrites that change integer width/signedness of intermediate results, evaluation order of calls with side effects, what happens on allocation failure, or the sequence of library/system calls.
+Your task: write 10 to 12 small, independent, behaviour-preserving source rewrites (refactorings) of libevent in {W}, each inside a function that implements one of the properties above (read the code first; spread them over the properties and over different functions). Each rewrite must leave the observable behaviour of the library EXACTLY as it is for every input, state and schedule — not just for the tests. Good kinds of rewrite: swap the branches of an if with the condition negated; turn a goto-cleanup into an inlined cleanup or the reverse; hoist or sink a declaration; split a compound condition into nested ifs or merge nested ifs; replace `x == 0` by `!x`, `a - b > 0` only if it is exactly equivalent for the types involved; introduce a local variable for a repeated sub-expression that has no side effects and cannot change in between; turn a while loop into an equivalent for loop or do-while with a guard; reorder two adjacent statements that are independent (no data, aliasing or ordering dependence — be careful with locks, callbacks and evbuffer operations that run callbacks); replace a macro use by its expansion; change `i++` to `++i` where the value is unused; use a ternary instead of if/else for an assignment. """ + ("This is a second round: the simple rewrites above have been done. Prefer BOLDER (but still exactly behaviour-preserving) refactorings this time: extract a few statements into a new static helper function (or inline a small static helper into its only caller); keep the result of a comparison in a local flag and branch on the flag later; replace an if/else-if chain by a switch (or the reverse) where the types allow it exactly; restructure a loop (while <-> for <-> do-while with guard, or loop with break <-> loop with flag); replace early returns by a single exit with a result variable (or the reverse); compute an index or a length through a named intermediate; split a function's long condition over several ifs with the same short-circuit order; rename locals; replace a macro invocation by its expansion or wrap a repeated expression into a new function-like macro. " if bold else "") + """Avoid rewrites that change integer width/signedness of intermediate results, evaluation order of calls with side effects, what happens on allocation failure, or the sequence of library/system calls.
 
 Rules:
  - each rewrite is ONE patch file touching one function (at most ~25 changed lines), named {W}/_eq/NN-<property id>-<short-name>.patch (NN = 01, 02, ...), produced with `git diff` against the unmodified checkout (so every patch applies on its own to a clean tree: make one, save the diff, `git checkout -- .`, make the next);
